@@ -78,7 +78,7 @@ Section ArrayProofs.
     destruct ((k <? 0) || (k >=? zlen its)) eqn:E; [reflexivity|].
     destruct H as [Hi Ht]. assert (Hk : (Z.to_nat k < length its)%nat) by (unfold zlen in *; lia).
     pose proof (step_refines (mk its tr) (MOverwrite e (w * k))) as Hs. cbn [model_step spec_step] in Hs. rewrite Hs. clear Hs.
-    assert (He0 : (zlen e =? 0) = false) by lia. rewrite He0. unfold norm_pos.
+    unfold norm_pos.
     assert (Hlen : zlen (mk its tr) = zlen its * w + zlen tr) by (unfold mk; rewrite zlen_app, zlen_concat by exact Hi; reflexivity).
     pose proof (zlen_nonneg tr).
     destruct (w * k <? 0) eqn:E1; [nia|]. rewrite Hlen.
@@ -139,8 +139,7 @@ Section ArrayProofs.
     assert (Hk : 0 <= k <= zlen its) by (unfold k; destruct (i <? 0) eqn:Ei; lia).
     destruct H as [Hi Ht].
     pose proof (step_refines (mk its tr) (MInsert e (k * w))) as Hs. cbn [model_step spec_step] in Hs. rewrite Hs. clear Hs.
-    assert (He0 : (zlen e =? 0) = false) by (destruct e; [congruence|rewrite zlen_cons; pose proof (zlen_nonneg e); lia]).
-    rewrite He0. unfold norm_pos.
+    unfold norm_pos.
     assert (Hlen : zlen (mk its tr) = zlen its * w + zlen tr) by (unfold mk; rewrite zlen_app, zlen_concat by exact Hi; reflexivity).
     pose proof (zlen_nonneg tr).
     destruct (k * w <? 0) eqn:E1; [nia|]. rewrite Hlen.
